@@ -30,7 +30,7 @@ MANIFEST = dict(
     text="Theorems over an executable model of hashring.Ring (deferred sweep, lazy sort, virtual nodes, multi-probe bisection "
          "lookup) for ANY hash function and any insert/remove/lookup history: the owner is a current member with its latest value "
          "(none iff no members, never a panic), and the lookup result equals that of any other history, in particular a freshly "
-         "built ring, with the same member set; plus a correspondence run of the model and a spec oracle against the real Go ring.",
+         "built ring, with the same member set; the winner is the member with a virtual node at the smallest clockwise distance from a probe; the model's bisection equals a linear scan on every reachable table; the oracle accepts every model run; plus a correspondence run of the model and a spec oracle against the real Go ring.",
     note="Trusted: Coq kernel; hand-written model tied to the code only by the correspondence run; Go driver; sort/stable-delete "
          "contracts of the Go standard library.",
 )
